@@ -69,6 +69,18 @@ MkS(i, path, o) == [id |-> "C08s/" \o path \o "/" \o o \o "/v" \o ToString(i),
                     prog |-> [body |-> Obtain(o, Specials[i]) \o (IF o = "inline" THEN Use(path, "only", StrL(Specials[i]), StrL(Specials[i])) ELSE Use(path, "only", Var("s"), Var("s2"))), world |-> World(o, Specials[i])], check |-> <<"fs">>]
 SpecialCases == {MkS(i, path, o) : i \in {j \in 1..Len(Specials) : Specials[j] # ""} , path \in Paths \ {"subscript"}, o \in SOrigins}
                 \cup {MkS(i, path, o) : i \in {j \in 1..Len(Specials) : Specials[j] = ""}, path \in Paths \ {"subscript", "range"}, o \in Origins \ {"stdin", "stdinp", "file", "cmd", "inline"}}
+\* ---- values with TWO special characters (first and last), as a literal operand next to a variable operand (round 9: a literal ending in "}" after a
+\* variable was taken for a plain expansion and left unquoted - it needed "}" last AND a blank or an operator before it).  The characters whose
+\* literals are known findings (K03-K06: double quote, dollar, backquote, backslash) are left out, so that every one of these cases must pass.
+Punct2 == " !#%&'()*+,-./:;<=>?@[]^_{|}~"
+PC2 == {SubSeq(Punct2, i, i) : i \in 1..Len(Punct2)}
+Value2(c1, c2) == c1 \o "b" \o c2
+Cat2(lit) == <<Def1("v", StrL("x")), Def1("t", Bin("+", Var("v"), lit)), Def1("u", Bin("+", lit, Var("v"))), Print1(Var("t")), Print1(Var("u")), Def1("w", Var("v")), Compound("w", "+", lit), Print1(Var("w")),
+               PrintS(<<Bin("+", Var("v"), lit), LenE(Var("t")), CmpE("==", Var("t"), Bin("+", StrL("x"), lit)), CmpE("==", Bin("+", Var("v"), lit), Var("u"))>>),
+               Func("id", <<Param("p", "string")>>, <<"string">>, <<RetS(<<Bin("+", Var("p"), lit)>>)>>), Print1(CallE("id", <<Var("v")>>))>>
+Mk2(c1, c2, path) == [id |-> "C08p/" \o path \o "/x" \o Hex(CodeOf(c1)) \o "x" \o Hex(CodeOf(c2)),
+                      prog |-> [body |-> IF path = "cat2" THEN Cat2(StrL(Value2(c1, c2))) ELSE Use(path, "only", StrL(Value2(c1, c2)), StrL(Value2(c1, c2))), world |-> World("inline", "")], check |-> <<"fs">>]
+PairCases == {Mk2(c1, c2, path) : c1 \in PC2, c2 \in PC2, path \in (IF Quick THEN {"cat2"} ELSE {"cat2", "print", "assign", "arg", "compare", "slice"})}
 ASSUME ndJsonSerialize("fam.ndjson", SetToSeq(UNION {IF Legal(t[1], t[2], t[3]) THEN {Mk(t[1], t[2], path, t[3]) : path \in {q \in Paths : LegalPath(q, t[3])}} ELSE {}
-                                                    : t \in Chars \X Positions \X Origins} \cup SpecialCases))
+                                                    : t \in Chars \X Positions \X Origins} \cup SpecialCases \cup PairCases))
 =============================================================================
